@@ -121,6 +121,48 @@ var c08Boundary = []string{"", " ", "0", "-0", "+0", "1", "-1", "007", "92233720
 	"0x10", "1_000", "3.5", ".5", "5.", "abc", "a b c", "a\x00b\x00c", "\x00", "\x00\x00", "\xff\xfe", "é", " ", "\t\n",
 	strings.Repeat("9", 40), strings.Repeat("a", 5000), "%s%d%!", "{", "}", "\\", "\"", "2021-01-02T03:04:05Z", "1h2m3s", "/a/b/c.txt", "{\"a\":1}"}
 
+// c08Bad: the classes of hostile argument values (non-numeric text, empty, beyond int64, MaxInt64, negative,
+// float, NUL-containing, marker-looking).
+var c08Bad = []string{"abc", "", "9223372036854775808", "9223372036854775807", "-7", "3.5", "a\x00b", "<BAD-TYPE>"}
+
+// c08Helpers: every helper of stdlib.StandardFunctions with the arities it accepts and a valid typical
+// argument per position (raw template fragments; the last one repeats for variadic helpers).
+type c08Helper struct {
+	name     string
+	min, max int
+	valid    []string
+}
+
+var c08Helpers = []c08Helper{
+	{"coalesce", 1, 3, []string{"\"\"", "b", "c"}}, {"bucket", 2, 2, []string{"17", "5"}}, {"bucketrange", 2, 2, []string{"17", "5"}},
+	{"clamp", 3, 3, []string{"5", "1", "9"}}, {"expbucket", 1, 1, []string{"1234"}}, {"isint", 1, 1, []string{"12"}}, {"isnum", 1, 1, []string{"1.5"}},
+	{"sumi", 2, 3, []string{"4", "2", "1"}}, {"subi", 2, 3, []string{"4", "2", "1"}}, {"multi", 2, 3, []string{"4", "2", "3"}},
+	{"divi", 2, 3, []string{"9", "2", "2"}}, {"modi", 2, 3, []string{"9", "4", "2"}}, {"maxi", 2, 3, []string{"4", "2", "7"}}, {"mini", 2, 3, []string{"4", "2", "7"}},
+	{"sumf", 2, 3, []string{"1.5", "2", "0.25"}}, {"subf", 2, 3, []string{"1.5", "2", "0.25"}}, {"multf", 2, 3, []string{"1.5", "2", "0.25"}},
+	{"divf", 2, 3, []string{"1.5", "2", "0.25"}}, {"pow", 2, 3, []string{"2", "3", "2"}},
+	{"ceil", 1, 1, []string{"1.5"}}, {"floor", 1, 1, []string{"1.5"}}, {"log10", 1, 1, []string{"100"}}, {"log2", 1, 1, []string{"8"}},
+	{"ln", 1, 1, []string{"2"}}, {"sqrt", 1, 1, []string{"16"}}, {"round", 1, 2, []string{"1.25", "1"}}, {"!", 1, 3, []string{"\"[0]*2+x\"", "21", "2"}},
+	{"if", 2, 3, []string{"1", "a", "b"}}, {"switch", 2, 5, []string{"1", "a", "\"\"", "b", "c"}}, {"unless", 2, 2, []string{"\"\"", "a"}},
+	{"eq", 2, 3, []string{"a", "a", "a"}}, {"neq", 2, 3, []string{"a", "b", "c"}}, {"not", 1, 1, []string{"1"}},
+	{"lt", 2, 2, []string{"1", "2"}}, {"gt", 2, 2, []string{"1", "2"}}, {"lte", 2, 2, []string{"1", "2"}}, {"gte", 2, 2, []string{"1", "2"}},
+	{"and", 1, 3, []string{"1", "1", "1"}}, {"or", 1, 3, []string{"\"\"", "1", "1"}},
+	{"len", 1, 1, []string{"abc"}}, {"like", 2, 2, []string{"abc", "b"}}, {"prefix", 2, 2, []string{"abc", "a"}}, {"suffix", 2, 2, []string{"abc", "c"}},
+	{"format", 1, 3, []string{"\"%s-%s\"", "a", "b"}}, {"substr", 3, 3, []string{"abcdef", "1", "3"}}, {"select", 2, 2, []string{"\"a b c\"", "1"}},
+	{"upper", 1, 1, []string{"abc"}}, {"lower", 1, 1, []string{"ABC"}}, {"tab", 1, 3, []string{"a", "b", "c"}}, {"$", 1, 3, []string{"a", "b", "c"}}, {"@", 1, 3, []string{"a", "b", "c"}},
+	{"@len", 1, 1, []string{"{@ a b c}"}}, {"@map", 2, 2, []string{"{@ a b c}", "\"[{0}]\""}}, {"@split", 1, 2, []string{"\"a,b,c\"", "\",\""}},
+	{"@select", 2, 2, []string{"{@ a b c}", "1"}}, {"@join", 1, 2, []string{"{@ a b c}", "\"-\""}}, {"@reduce", 2, 3, []string{"{@ 1 2 3}", "\"{sumi {0} {1}}\"", "0"}},
+	{"@filter", 2, 2, []string{"{@ a b c}", "\"{neq {0} b}\""}}, {"@slice", 2, 3, []string{"{@ a b c d}", "1", "2"}}, {"@in", 2, 2, []string{"b", "{@ a b c}"}},
+	{"@range", 1, 3, []string{"1", "5", "2"}}, {"@for", 3, 3, []string{"1", "\"{lt {1} 3}\"", "\"{sumi {0} 1}\""}},
+	{"basename", 1, 1, []string{"/a/b/c.txt"}}, {"dirname", 1, 1, []string{"/a/b/c.txt"}}, {"extname", 1, 1, []string{"/a/b/c.txt"}},
+	{"load", 1, 1, []string{"/nonexistent/zz"}}, {"lookup", 2, 3, []string{"a", "\"a 1\\nb 2\"", "\"#\""}}, {"haskey", 2, 3, []string{"a", "\"a 1\\nb 2\"", "\"#\""}},
+	{"hi", 1, 1, []string{"12345"}}, {"hf", 1, 1, []string{"12345.5"}}, {"bytesize", 1, 2, []string{"1536", "1"}}, {"bytesizesi", 1, 2, []string{"1536", "1"}},
+	{"downscale", 1, 2, []string{"1536", "1"}}, {"percent", 1, 4, []string{"0.5", "1", "0", "2"}}, {"json", 1, 2, []string{"\"\\{\\\"a\\\":1\\}\"", "a"}},
+	{"csv", 1, 3, []string{"a", "\"b,c\"", "d"}}, {"time", 1, 3, []string{"\"2021-01-02T03:04:05Z\"", "RFC3339", "utc"}},
+	{"timeformat", 1, 3, []string{"1609556645", "RFC3339", "utc"}}, {"timeattr", 2, 3, []string{"1609556645", "weekday", "utc"}},
+	{"buckettime", 2, 4, []string{"\"2021-01-02T03:04:05Z\"", "hour", "RFC3339", "utc"}}, {"duration", 1, 1, []string{"1h2m3s"}}, {"durationformat", 1, 1, []string{"3723"}},
+	{"color", 2, 2, []string{"red", "txt"}}, {"repeat", 2, 2, []string{"ab", "3"}}, {"bar", 3, 4, []string{"5", "10", "8", "linear"}},
+}
+
 func c08Gen(r *Rand, tier string) []string {
 	g := &c10g{r}
 	var out []string
@@ -129,7 +171,7 @@ func c08Gen(r *Rand, tier string) []string {
 	}
 	n := 2500
 	if tier == "thorough" {
-		n = 120000
+		n = 80000
 	}
 	// 1. every helper at every small arity with boundary arguments, as constants and as match groups
 	for _, fn := range c10Fns {
@@ -164,6 +206,52 @@ func c08Gen(r *Rand, tier string) []string {
 					t = "{" + fn.name + " }"
 				}
 				add(r.Bool(), t, el, []string{"src", "f", "line", "3"})
+			}
+		}
+	}
+	// 1b. systematic: for every helper, every arity it accepts (and one beyond), every argument position i and
+	// every class of bad value, that value at position i - as a constant and as a match group - while all
+	// other positions hold valid typical values of the helper (thorough: also every pair of positions)
+	for _, h := range c08Helpers {
+		for ar := h.min; ar <= h.max+1 && ar <= len(h.valid)+1; ar++ {
+			if ar == 0 {
+				continue
+			}
+			emit := func(bad map[int]string, asGroup bool) {
+				var parts []string
+				var el []string
+				for i := 0; i < ar; i++ {
+					v, isBad := bad[i]
+					switch {
+					case isBad && asGroup:
+						el = append(el, v)
+						parts = append(parts, fmt.Sprintf("{%d}", len(el)-1))
+					case isBad:
+						parts = append(parts, quoteArg(v))
+					case i < len(h.valid):
+						parts = append(parts, h.valid[i])
+					default:
+						parts = append(parts, h.valid[len(h.valid)-1])
+					}
+				}
+				add(r.Bool(), "{"+h.name+" "+strings.Join(parts, " ")+"}", el, []string{"src", "f", "line", "3"})
+			}
+			for i := 0; i < ar; i++ {
+				for _, b := range c08Bad {
+					emit(map[int]string{i: b}, false)
+					emit(map[int]string{i: b}, true)
+				}
+			}
+			if tier == "thorough" {
+				for i := 0; i < ar; i++ {
+					for j := i + 1; j < ar; j++ {
+						for _, b1 := range c08Bad {
+							for _, b2 := range c08Bad {
+								emit(map[int]string{i: b1, j: b2}, r.Bool())
+							}
+						}
+					}
+				}
 			}
 		}
 	}
@@ -589,8 +677,8 @@ func c08CapInf(cases []string, max int) []string {
 	return out
 }
 
-// c08ChildRun is c08Run inside a probe child: an inner watchdog shorter than the harness one classifies a
-// case that does not return by the heap it has built up.
+// c08ChildRun is c08Run inside a probe child: an inner watchdog (shorter than the harness one) classifies a
+// case that does not return by the heap it builds up.
 func c08ChildRun(f []string) string {
 	ch := make(chan string, 1)
 	go func() {
@@ -601,16 +689,24 @@ func c08ChildRun(f []string) string {
 		}()
 		ch <- c08Run(f)
 	}()
-	select {
-	case a := <-ch:
-		return a
-	case <-time.After(1500 * time.Millisecond):
-		var ms runtime.MemStats
-		runtime.ReadMemStats(&ms)
-		if ms.HeapAlloc > 200<<20 {
-			return "hang-grow"
+	// A legitimate MAX_ITERATIONS loop finishes well inside the deadline even on a loaded machine; a growing
+	// accumulator shows in the heap long before it; whatever is left spins without allocating.
+	deadline := time.After(6 * time.Second)
+	tick := time.NewTicker(100 * time.Millisecond)
+	defer tick.Stop()
+	for {
+		select {
+		case a := <-ch:
+			return a
+		case <-tick.C:
+			var ms runtime.MemStats
+			runtime.ReadMemStats(&ms)
+			if ms.HeapAlloc > 200<<20 {
+				return "hang-grow"
+			}
+		case <-deadline:
+			return "hang-spin"
 		}
-		return "hang-spin"
 	}
 }
 
